@@ -15,7 +15,7 @@ import random
 import numpy as np
 
 from omv.core import fingerprint
-from omv.kit.gmon import FailureMonitor, exc_key, spec_features, tree_solvers, conn_features
+from omv.kit.gmon import SolverAbort, FailureMonitor, exc_key, spec_features, tree_solvers, conn_features
 from omv.kit.poison import poison
 
 PROPERTY = 'C01'
@@ -166,6 +166,9 @@ def run_case(case, acc):
                 prob.cleanup()
                 continue
             bad = []
+            # a cell with a linear non-convergence report is not judged: stop at the first report (nested
+            # non-converging block solvers otherwise run maxiter**depth sweeps)
+            fmon.abort = True
             try:
                 if not declared:
                     Ja = prob.compute_totals(of=of_names, wrt=wrt_names, return_format='array')
@@ -227,13 +230,17 @@ def run_case(case, acc):
                     e = _relerr(Jdrv, _driver_ref(dv, fm, u, p, S, True))
                     if e > TOL:
                         bad.append(('driver-totals-scaled', e, Jdrv))
+            except SolverAbort:
+                pass
             except Exception as e:
                 if os.environ.get('OMV_DEBUG'):
                     import traceback
                     traceback.print_exc()
+                fmon.abort = False
                 acc.viol(K(exc_key('derivative-api', e)), '%s: %s' % (type(e).__name__, str(e)[:200]), ccase)
                 prob.cleanup()
                 continue
+            fmon.abort = False
             lin_fail = list(fmon.failures)
         prob.cleanup()
         ccase.pop('_dv', None)
